@@ -4,6 +4,10 @@ package main
 // definitional axiom (pattern: the application) plus a ground definitional
 // instance for every application whose arguments are ground. This gives the
 // solvers triggers for quantified invariants over pure arithmetic.
+//
+// An "entrystate" opaque function may read memory; it always reads the memory
+// of the function's entry state (whose heap symbols are constants), wherever
+// it is applied.
 
 import (
 	"go/types"
@@ -15,13 +19,18 @@ func (fx *FnCtx) opaqueCall(x *SCall, sf *SpecFunc, sub *Env, spkg *types.Packag
 	if len(lay.Leaves) != 1 {
 		fx.specFail(x, "opaque spec function %s must return a scalar", sf.Name)
 	}
+	entrySt := fx.root.entry
+	if entrySt == nil {
+		entrySt = fx.entry
+	}
 	f := DeclareUF("sf_"+tc.Mode.String()+"_"+sf.Name, argSorts, lay.Leaves[0].Sort)
 	app := f.App(argTerms...)
 	marker := Sym("opq$"+f.Name, BoolSort)
 	if !fx.root.heapAxiomDone[marker] {
 		fx.root.heapAxiomDone[marker] = true
-		env2 := &Env{fx: fx, st: fx.entry, vars: map[string]SV{}, pkg: spkg, depth: sub.depth}
+		env2 := &Env{fx: fx, st: entrySt, vars: map[string]SV{}, pkg: spkg, depth: sub.depth, lookup: sub.lookup}
 		var bvs []*Term
+		guard := True
 		for _, p := range sf.Params {
 			pt := fx.resolveType(p.Type, spkg)
 			val := Value{T: pt}
@@ -33,7 +42,7 @@ func (fx *FnCtx) opaqueCall(x *SCall, sf *SpecFunc, sub *Env, spkg *types.Packag
 			env2.vars[p.Name] = SV{V: val}
 		}
 		save := fx.pureEval
-		fx.pureEval = true
+		fx.pureEval = !sf.EntryState
 		env2.hint = rtyp
 		body := fx.evalSpec(env2, sf.Body)
 		fx.pureEval = save
@@ -44,7 +53,20 @@ func (fx *FnCtx) opaqueCall(x *SCall, sf *SpecFunc, sub *Env, spkg *types.Packag
 			fx.specFail(x, "body of opaque %s does not have the declared type", sf.Name)
 		}
 		lhs := f.App(bvs...)
-		fx.root.axioms = append(fx.root.axioms, Forall(bvs, Eq(lhs, body.V.L[0]), []*Term{lhs}))
+		if bt := body.V.L[0]; bt.Op == "exists" && lhs.Sort == BoolSort {
+			// f(x) <=> exists i. g(x,i) is given as two clauses, so that the introduction direction
+			// has the pattern {f(x), terms of g}: forall x,i. g(x,i) => f(x)  and  forall x. f(x) => exists i. g(x,i)
+			all := append(append([]*Term{}, bvs...), bt.Bound...)
+			if len(bvs) == 0 {
+				fx.root.axioms = append(fx.root.axioms, Forall(bt.Bound, Implies(bt.Args[0], lhs)), Implies(lhs, bt))
+			} else {
+				fx.root.axioms = append(fx.root.axioms, Forall(all, Implies(bt.Args[0], lhs)), Forall(bvs, Implies(lhs, bt), []*Term{lhs}))
+			}
+		} else if len(bvs) == 0 {
+			fx.root.axioms = append(fx.root.axioms, Eq(lhs, body.V.L[0]))
+		} else {
+			fx.root.axioms = append(fx.root.axioms, Forall(bvs, Implies(guard, Eq(lhs, body.V.L[0])), []*Term{lhs}))
+		}
 	}
 	ground := true
 	for _, a := range argTerms {
@@ -55,15 +77,22 @@ func (fx *FnCtx) opaqueCall(x *SCall, sf *SpecFunc, sub *Env, spkg *types.Packag
 	if ground && !fx.root.heapAxiomDone[app] {
 		fx.root.heapAxiomDone[app] = true
 		save := fx.pureEval
-		fx.pureEval = true
+		fx.pureEval = !sf.EntryState
+		saveSt := sub.st
+		if sf.EntryState {
+			sub.st = entrySt
+		}
 		sub.hint = rtyp
 		body := fx.evalSpec(sub, sf.Body)
+		sub.st = saveSt
 		fx.pureEval = save
 		if body.Untyped {
 			body = fx.typed(body, rtyp)
 		}
-		// definitional: holds unconditionally
-		fx.root.axioms = append(fx.root.axioms, Eq(app, body.V.L[0]))
+		// definitional: holds unconditionally (quantified bodies are covered by the axioms above)
+		if !hasQuant(body.V.L[0]) {
+			fx.root.axioms = append(fx.root.axioms, Eq(app, body.V.L[0]))
+		}
 	}
 	return SV{V: Value{T: rtyp, L: []*Term{app}}}
 }
